@@ -6,6 +6,7 @@ import lib
 # JSON code of a label:  ['i', n]  int      ['b', true]  bool      ['f', x]  float (integral or k + 0.5)
 #                        ['s', 'ab'] str    ['p', a, b]  tuple (a, b) of ints      ['none']  None
 #                        ['per', 'Q', ordinal]  pandas Period      ['ts', ns]  pandas Timestamp
+#                        ['d64', 'ns' | 'D', n]  numpy.datetime64 (element of a datetime64 array span)      ['f', 'nan']  float NaN
 FREQ_CODE = {'Y': 1, 'Q': 2, 'M': 3}
 EXN = {'ValueError': 'ValueError', 'IndexError': 'IndexError', 'KeyError': 'KeyError', 'AttributeError': 'AttributeError',
        'TypeError': 'TypeError', 'NotImplementedError': 'NotImplementedError', 'DimensionError': 'DimensionError',
@@ -22,6 +23,9 @@ def dec_label(j):
         return float(j[1])
     if k == 's':
         return str(j[1])
+    if k == 'd64':
+        import numpy as np
+        return np.datetime64(int(j[2]), j[1])
     if k == 'p':
         return (int(j[1]), int(j[2]))
     if k == 'none':
@@ -40,12 +44,15 @@ def enc_label(x):
     import pandas as pd
     if x is None:
         return ['none']
+    if isinstance(x, np.datetime64):
+        unit = np.datetime_data(x.dtype)[0]
+        return ['d64', unit, int(x.astype('int64'))]
     if isinstance(x, (bool, np.bool_)):
         return ['b', bool(x)]
     if isinstance(x, (int, np.integer)):
         return ['i', int(x)]
     if isinstance(x, (float, np.floating)):
-        return ['f', float(x)]
+        return ['f', float(x)] if x == x else ['f', 'nan']
     if isinstance(x, str):
         return ['s', str(x)]
     if isinstance(x, tuple) and len(x) == 2:
@@ -63,7 +70,7 @@ def canon(j):
     if k in ('i', 'b'):
         return ('n', 2 * int(j[1]))
     if k == 'f':
-        return ('n', int(round(2 * float(j[1]))))
+        return ('nan',) if j[1] == 'nan' or j[1] != j[1] else ('n', int(round(2 * float(j[1]))))
     if k == 'per':
         return ('per', j[1], int(j[2]))
     return tuple(j)
@@ -106,6 +113,9 @@ def c_label(j):
         return 'LNone'
     if k == 'per':
         return '(LPer %d %s)' % (FREQ_CODE[j[1]], lib.cZ(j[2]))
+    if k == 'd64':
+        # an element / label of a datetime64 array: [ns] is the class whose object cast is an int (LTs in an SArr); [D] casts to a date
+        return '(LTs %s)' % lib.cZ(j[2]) if j[1] == 'ns' else '(LPer 9 %s)' % lib.cZ(j[2])
     if k == 'ts':
         return '(LTs %s)' % lib.cZ(j[1])
     raise AssertionError(j)
@@ -133,6 +143,8 @@ def build_span(spec):
     import numpy as np
     if t == 'nparr':
         return np.array([dec_label(x) for x in spec['labels']])
+    if t == 'nparr_dt64':
+        return np.array([spec['start'] + spec['step'] * i for i in range(spec['n'])], dtype='int64').astype('datetime64[%s]' % spec['unit'])
     import pandas as pd
     if t == 'pdindex':
         return pd.Index([dec_label(x) for x in spec['labels']])
@@ -153,6 +165,8 @@ def span_labels(spec):
         return [['i', spec['start'] + spec['step'] * i] for i in range(spec['n'])]
     if t in ('list', 'tuple', 'nparr', 'pdindex'):
         return [list(x) for x in spec['labels']]
+    if t == 'nparr_dt64':
+        return [['d64', spec['unit'], spec['start'] + spec['step'] * i] for i in range(spec['n'])]
     key = lib.jhash(spec)
     if key not in _LABEL_CACHE:
         _LABEL_CACHE[key] = [enc_label(x) for x in build_span(spec)]
@@ -168,7 +182,7 @@ def c_span(spec):
     if t == 'range':
         return '(SRange %s %s %d%%nat)' % (lib.cZ(spec['start']), lib.cZ(spec['step']), spec['n'])
     labs = lib.clist(c_label(x) for x in span_labels(spec))
-    return '(%s %s)' % ({'list': 'SList', 'tuple': 'SList', 'nparr': 'SArr'}.get(t, 'SPandas'), labs)
+    return '(%s %s)' % ({'list': 'SList', 'tuple': 'SList', 'nparr': 'SArr', 'nparr_dt64': 'SArr'}.get(t, 'SPandas'), labs)
 
 
 def span_len(spec):
